@@ -514,44 +514,77 @@ func (c *Ctx) c17Load() {
 		r.Undecided("R4", "role:Parser.Load", "-", "dict.(*Parser).Load not found")
 		return
 	}
-	loops := flow.Loops(ld)
 	type upd struct {
 		mu     *ssa.MapUpdate
 		fld    string
 		vendor string
+		chain  []ssa.Instruction // the update and the calls leading to it from Load
 	}
 	var ups []upd
-	flow.Instrs(ld, func(in ssa.Instruction) {
-		mu, ok := in.(*ssa.MapUpdate)
-		if !ok {
-			return
+	// the load family: Load and the package-local helpers it (transitively) calls
+	type famEntry struct {
+		f     *ssa.Function
+		chain []ssa.Instruction
+	}
+	fam := []famEntry{{ld, nil}}
+	seenF := map[*ssa.Function]bool{ld: true}
+	for i := 0; i < len(fam) && i < 16; i++ {
+		for _, ci := range flow.CallInstrs(fam[i].f) {
+			h := flow.StaticCallee(ci)
+			if h == nil || h.Blocks == nil || seenF[h] || pkgOf(h) == nil || pkgOf(h).Path() != pkgDict {
+				continue
+			}
+			seenF[h] = true
+			fam = append(fam, famEntry{h, append(append([]ssa.Instruction{}, fam[i].chain...), ci)})
 		}
-		_, fld, _, ok := flow.FieldOf(mu.Map)
-		if !ok {
-			return
-		}
-		u := upd{mu: mu, fld: fld}
-		if fs := structLitFields(mu.Key); fs != nil {
-			if v, ok := fs["vendorID"]; ok {
-				if k, isK := flow.ConstInt(v); isK && k == 4294967295 {
-					u.vendor = "wildcard"
-				} else if tn, f2, _, ok := flow.FieldOf(flow.Peel(v)); ok && tn == "AVP" && f2 == "VendorID" {
-					u.vendor = "own"
-				} else {
-					u.vendor = "other"
+	}
+	for _, fe := range fam {
+		fe := fe
+		flow.Instrs(fe.f, func(in ssa.Instruction) {
+			mu, ok := in.(*ssa.MapUpdate)
+			if !ok {
+				return
+			}
+			_, fld, _, ok := flow.FieldOf(mu.Map)
+			if !ok {
+				return
+			}
+			u := upd{mu: mu, fld: fld}
+			if fs := structLitFields(mu.Key); fs != nil {
+				if v, ok := fs["vendorID"]; ok {
+					if k, isK := flow.ConstInt(v); isK && k == 4294967295 {
+						u.vendor = "wildcard"
+					} else if tn, f2, _, ok := flow.FieldOf(flow.Peel(v)); ok && tn == "AVP" && f2 == "VendorID" {
+						u.vendor = "own"
+					} else {
+						u.vendor = "other"
+					}
 				}
 			}
-		}
-		ups = append(ups, u)
-	})
+			u.chain = append(append([]ssa.Instruction{}, fe.chain...), mu)
+			ups = append(ups, u)
+		})
+	}
+	// conditional: inside a loop of its function the update (or a call on the way to it) is guarded by a
+	// test other than the loop condition
 	cond := func(u upd) string {
-		l := flow.InnermostLoop(loops, u.mu)
-		for _, g := range flow.Guards(u.mu) {
-			if l != nil && l.Blocks[g.If.Block()] && g.If.Block() != l.Head {
-				return short(g.If.Cond.String(), 40)
-			}
-			if l == nil {
-				// top-level: only lock/decoding guards (error returns) are fine
+		for _, at := range u.chain {
+			loops := flow.Loops(at.Parent())
+			l := flow.InnermostLoop(loops, at)
+			for _, g := range flow.Guards(at) {
+				if l != nil && l.Blocks[g.If.Block()] && g.If.Block() != l.Head {
+					return short(g.If.Cond.String(), 40)
+				}
+				if l == nil && at.Parent() != ld {
+					// in a helper called per element: any guard whose other edge does not return an error
+					other := 0
+					if g.Taken {
+						other = 1
+					}
+					if !returnsNonNilError(g.If.Block().Succs[other]) {
+						return short(g.If.Cond.String(), 40)
+					}
+				}
 			}
 		}
 		return ""
@@ -610,7 +643,7 @@ func (c *Ctx) c17Load() {
 			// re-making the index maps outside the once-initialiser
 			if st, ok := in.(*ssa.Store); ok {
 				if tn, fld, _, ok := flow.FieldOf(st.Addr); ok && tn == "Parser" {
-					if _, isMk := st.Val.(*ssa.MakeMap); isMk && f.Parent() == nil {
+					if _, isMk := st.Val.(*ssa.MakeMap); isMk && f.Parent() == nil && !c.onlyViaOnce(f) {
 						nDel++
 						r.Fail("R4", fname(f)+":remake-"+fld, c.pos(st), "a Parser index map is re-created outside the once-initialiser: earlier definitions are dropped")
 					}
@@ -621,4 +654,23 @@ func (c *Ctx) c17Load() {
 	if nDel == 0 {
 		r.Ok("R4", "dict:no-deletes", "-", "no delete() and no index re-creation in package dict")
 	}
+}
+
+// onlyViaOnce: f is never called directly in the library; its only uses are as the function handed to
+// sync.Once.Do (method value or closure).
+func (c *Ctx) onlyViaOnce(f *ssa.Function) bool {
+	uses := 0
+	for _, g := range c.P.LibraryFuncs() {
+		for _, ci := range flow.CallInstrs(g) {
+			if flow.StaticCallee(ci) == f {
+				return false
+			}
+			if flow.IsCallTo(ci, "sync", "Once", "Do") && len(ci.Common().Args) == 2 {
+				if mc, ok := ci.Common().Args[1].(*ssa.MakeClosure); ok && flow.Unwrap(mc.Fn.(*ssa.Function)) == f {
+					uses++
+				}
+			}
+		}
+	}
+	return uses > 0
 }
